@@ -525,6 +525,85 @@ fn run(v: &Value) -> Result<String, String> {
                     }
                 }
             }
+            // ---- reader producers that FAIL part-way: whatever the error kind, the consumer must see a failure, never a clean end ----
+            {
+                use std::io::ErrorKind as K;
+                struct Failing { data: Vec<u8>, pos: usize, kind: K, interrupted_once: bool }
+                impl std::io::Read for Failing {
+                    fn read(&mut self, b: &mut [u8]) -> std::io::Result<usize> {
+                        if self.pos >= self.data.len() {
+                            // `Interrupted` is retried by every std reader loop: deliver it once, then fail for good
+                            if self.kind == K::Interrupted && !self.interrupted_once { self.interrupted_once = true; return Err(std::io::Error::new(K::Interrupted, "retry")); }
+                            let k = if self.kind == K::Interrupted { K::Other } else { self.kind };
+                            return Err(std::io::Error::new(k, "source failed part-way"));
+                        }
+                        let n = b.len().min(300).min(self.data.len() - self.pos);
+                        b[..n].copy_from_slice(&self.data[self.pos..self.pos + n]);
+                        self.pos += n;
+                        Ok(n)
+                    }
+                }
+                let kinds: Vec<(&'static str, K)> = vec![("other", K::Other), ("unexpectedeof", K::UnexpectedEof), ("brokenpipe", K::BrokenPipe), ("connectionreset", K::ConnectionReset), ("timedout", K::TimedOut), ("wouldblock", K::WouldBlock), ("interrupted", K::Interrupted), ("invaliddata", K::InvalidData)];
+                for compression in [Compression::None, Compression::Zstd] {
+                    let cname = if matches!(compression, Compression::None) { "none" } else { "zstd" };
+                    let kinds2 = kinds.clone();
+                    let router = repe::Router::new().with_reader_stream(
+                        move |resource: &str| { let mut it = resource.split(':'); let n: usize = it.next()?.parse().ok()?; let kind = kinds2.iter().find(|k| Some(k.0) == it.clone().next()).map(|k| k.1)?; Some(Failing { data: (0..n).map(|i| (i * 3 + 1) as u8).collect(), pos: 0, kind, interrupted_once: false }) },
+                        StreamOpts { chunk_bytes: chunk, compression, zstd_level: 3, session_depth: 2 },
+                    );
+                    let server = repe::Server::new(router);
+                    let listener = server.listen("127.0.0.1:0").unwrap();
+                    let addr = listener.local_addr().unwrap();
+                    std::thread::spawn(move || { let _ = server.serve(listener); });
+                    let client = repe::Client::connect(addr).map_err(|e| e.to_string())?;
+                    for n in [0usize, 700, chunk, 2 * chunk + 5] { for (kname, _) in &kinds {
+                        cases += 1;
+                        if let Ok(b) = repe::pull_to_vec(&client, &format!("{n}:{kname}")) { return Err(format!("[{cname}] a reader source that failed with io::ErrorKind::{kname} after {n} bytes was delivered as a clean stream of {} bytes", b.len())); }
+                    } }
+                }
+            }
+            // ---- interleaved streams on one connection: each reproduces its own producer's bytes and ends once ----
+            {
+                #[derive(serde::Serialize)] struct OpenReq { resource: String }
+                #[derive(serde::Deserialize)] #[allow(dead_code)] struct OpenResp { version: u8, stream_id: u64, format: u16, compression: u8 }
+                #[derive(serde::Serialize)] struct NextReq { stream_id: u64 }
+                let blob = |tag: u8, len: usize| -> Vec<u8> { (0..len).map(|i| tag ^ (i as u8).wrapping_mul(31)).collect() };
+                let router = repe::Router::new().with_reader_stream(
+                    move |resource: &str| { let (t, n) = match resource { "a" => (0x11u8, 1000usize), "b" => (0x77, 1500), "c" => (0xC3, 700), "d" => (0x05, 0), _ => return None }; Some(std::io::Cursor::new((0..n).map(|i| t ^ (i as u8).wrapping_mul(31)).collect::<Vec<u8>>())) },
+                    StreamOpts { chunk_bytes: 256, compression: Compression::None, zstd_level: 3, session_depth: 2 },
+                );
+                let server = repe::Server::new(router);
+                let listener = server.listen("127.0.0.1:0").unwrap();
+                let addr = listener.local_addr().unwrap();
+                std::thread::spawn(move || { let _ = server.serve(listener); });
+                let client = repe::Client::connect(addr).map_err(|e| e.to_string())?;
+                let open = |r: &str| -> Result<u64, String> {
+                    let body = beve::to_vec(&OpenReq { resource: r.to_string() }).map_err(|e| e.to_string())?;
+                    let resp = client.call_with_formats(repe::value_stream::ROUTE_OPEN, 1, Some(&body), repe::BodyFormat::Beve as u16).map_err(|e| e.to_string())?;
+                    let o: OpenResp = beve::from_slice(&resp.body).map_err(|e| e.to_string())?;
+                    Ok(o.stream_id)
+                };
+                let drain = |id: u64| -> Result<(Vec<u8>, usize), String> {
+                    let mut out = Vec::new(); let mut lasts = 0;
+                    for _ in 0..64 {
+                        let body = beve::to_vec(&NextReq { stream_id: id }).map_err(|e| e.to_string())?;
+                        let resp = client.call_with_formats(repe::value_stream::ROUTE_NEXT, 1, Some(&body), repe::BodyFormat::Beve as u16).map_err(|e| format!("next({id}): {e}"))?;
+                        out.extend_from_slice(&resp.body);
+                        if resp.query.len() == 1 && resp.query[0] == 1 { lasts += 1; break; }
+                    }
+                    Ok((out, lasts))
+                };
+                let a = open("a")?; let b = open("b")?;
+                let (da, la) = drain(a)?;
+                let c = open("c")?; let d = open("d")?;
+                let (db, lb) = drain(b)?; let (dc, lc) = drain(c)?; let (dd, ld) = drain(d)?;
+                let ids = [a, b, c, d];
+                for i in 0..4 { for j in 0..i { if ids[i] == ids[j] && !(i == 2 && j == 0) && !(i == 3 && j == 0) { return Err(format!("two live streams were given the same stream id {} (ids in open order: {ids:?})", ids[i])); } } }
+                for (name, got, lasts, want) in [("a", &da, la, blob(0x11, 1000)), ("b", &db, lb, blob(0x77, 1500)), ("c", &dc, lc, blob(0xC3, 700)), ("d", &dd, ld, blob(0x05, 0))] {
+                    if *got != want || lasts != 1 { return Err(format!("interleaved streams (open a, open b, drain a, open c, open d, drain b, c, d): stream {name} delivered {} bytes with {lasts} end marker(s); its producer wrote {} bytes (ids {ids:?})", got.len(), want.len())); }
+                }
+                cases += 4;
+            }
             // ---- verified pullers: a rejecting verifier publishes nothing, for trailer_len 0 and 8, blocking and async ----
             {
                 let router = repe::Router::new().with_reader_stream(
@@ -704,6 +783,7 @@ fn run(v: &Value) -> Result<String, String> {
             use std::io::Read as _;
             use std::time::Duration;
             let big = v.get("big_bytes").and_then(|x| x.as_u64()).unwrap_or(32 << 20) as usize;
+            let abandon = v.get("abandon").and_then(|x| x.as_bool()).unwrap_or(false);
             let listener = std::net::TcpListener::bind("127.0.0.1:0").unwrap();
             let addr = listener.local_addr().unwrap();
             let peer = std::thread::spawn(move || {
@@ -725,8 +805,16 @@ fn run(v: &Value) -> Result<String, String> {
             let (first_s, second_s) = rt.block_on(async {
                 let client = repe::AsyncClient::connect(addr).await.unwrap();
                 let payload = vec![0x5Au8; big];
-                let first = client.call_with_formats_and_timeout("/big", 1, Some(&payload[..]), 0u16, Duration::from_millis(100)).await;
-                let first_s = match &first { Ok(_) => "Ok".to_string(), Err(e) => format!("Err({e})") };
+                let first_s = if abandon {
+                    // the caller abandons its send mid-frame: the future writing the request is dropped 100 ms in
+                    let c = client.clone();
+                    let h = tokio::spawn(async move { c.notify_with_formats("/big", 1, Some(&payload[..]), 0u16).await });
+                    tokio::time::sleep(Duration::from_millis(100)).await;
+                    if h.is_finished() { "finished-before-abort".to_string() } else { h.abort(); let _ = h.await; "abandoned mid-send".to_string() }
+                } else {
+                    let first = client.call_with_formats_and_timeout("/big", 1, Some(&payload[..]), 0u16, Duration::from_millis(100)).await;
+                    match &first { Ok(_) => "Ok".to_string(), Err(e) => format!("Err({e})") }
+                };
                 tokio::time::sleep(Duration::from_millis(900)).await;
                 let second = client.notify_with_formats("/small", 1, Some(&b"hi"[..]), 0u16).await;
                 let second_s = match &second { Ok(_) => "Ok".to_string(), Err(e) => format!("Err({e})") };
@@ -883,7 +971,7 @@ fn run(v: &Value) -> Result<String, String> {
             total += bulk_sweep_type::<f64>("f64", &lens)?;
             // complex pairs: bulk == generic, round trip, streaming == builder
             let mut seed = 77u64;
-            for n in [0usize, 1, 2, 5, 64] {
+            for n in [0usize, 1, 2, 5, 31, 32, 33, 63, 64, 65, 8191, 8192] {
                 let data: Vec<beve::Complex<f64>> = (0..n).map(|_| beve::Complex { re: f64::from_bits(lcg(&mut seed)), im: f64::from_bits(lcg(&mut seed)) }).collect();
                 let built = repe::Message::builder().id(3).query_str("/c").body_complex_slice(&data).build();
                 let back: Vec<beve::Complex<f64>> = built.decode_complex_slice().map_err(|e| e.to_string())?;
@@ -998,13 +1086,16 @@ fn run(v: &Value) -> Result<String, String> {
                             if pm.header.body_format != built.header.body_format || pm.body != built.body || pm.query != built.query || pm.header.id != h.id {
                                 return Err(format!("write_message_typed_slice with an incoming header body_format={} emitted body_format={} ({} body bytes); the builder route emits body_format={} ({} body bytes)", h.body_format, pm.header.body_format, pm.body.len(), built.header.body_format, built.body.len()));
                             }
-                            let cdata: Vec<repe::Complex<f32>> = (0..bl).map(|i| repe::Complex { re: i as f32, im: -(i as f32) }).collect();
+                            for cn in [bl, 31, 32, 33, 63, 64, 65] {
+                            let cdata: Vec<repe::Complex<f32>> = (0..cn).map(|i| repe::Complex { re: i as f32, im: -(i as f32) }).collect();
                             let cbuilt = repe::Message::builder().id(h.id).query_bytes(q.clone()).body_complex_slice(&cdata).build();
                             let mut cstreamed = Vec::new();
                             repe::write_message_complex_slice(&mut cstreamed, hh, &q, &cdata).map_err(|e| e.to_string())?;
                             let cpm = repe::Message::from_slice_exact(&cstreamed).map_err(|e| format!("write_message_complex_slice emitted an unparsable frame: {e}"))?;
                             if cpm.header.body_format != cbuilt.header.body_format || cpm.body != cbuilt.body {
                                 return Err(format!("write_message_complex_slice with an incoming header body_format={} emitted body_format={}; the builder route emits {}", h.body_format, cpm.header.body_format, cbuilt.header.body_format));
+                            }
+                            if cstreamed.len() != 48 + q.len() + cbuilt.body.len() { return Err(format!("write_message_complex_slice for {cn} elements emitted {} bytes; the builder route frames {}", cstreamed.len(), 48 + q.len() + cbuilt.body.len())); }
                             }
                         }
                         let mut a = Vec::new();
